@@ -120,5 +120,5 @@ ComposeLaw ==
 Code(s, S) == CHOOSE i \in 1..Cardinality(S) : SetToSortSeq(S, LAMBDA a, b : TRUE)[i] = s
 Hash(x) == LET p == PlanOf(x) IN Len(p) * 7 + x.n * 13
               + FoldSet(LAMBDA i, acc : (acc * 3 + Len(p[i].fn) + Len(p[i].op) * 5 + Len(p[i].args) * 11 + p[i].off + p[i].rng * 2) % 100003, 1, 1..Len(p))
-EmitCmp == IF Valid(g) /\ Hash(g) % Mod = Seed % Mod THEN Emit(ScnOf(g)) ELSE TRUE
+EmitCmp == IF Valid(g) /\ Pick(Hash(g), 0, Mod) = Seed % Mod THEN Emit(ScnOf(g)) ELSE TRUE
 =============================================================================
